@@ -82,6 +82,16 @@ def run_history(ctx, r, evs):
                 tokens.append("R:" + hx(b))
                 w.rx(b)
                 label = "data"
+            elif kind == "rflag":
+                # `ZBOSS.reset()` raises the protocol's reset flag before it sends the reset request; transmission and
+                # numbering do not depend on it (for the model: an empty read)
+                tokens.append("R:")
+                try:
+                    w.p.reset_flag = True
+                except Exception:
+                    pass
+                w.rx(b"")
+                label = "reset-flag"
             elif kind == "tick":
                 tokens.append("T")
                 w.tick()
@@ -174,7 +184,7 @@ def drive(ctx, histories, prop_checker):
             ctx.traces += 1
 
 
-KINDS = ["send"] * 4 + ["ack"] * 4 + ["ack0", "ack1", "ack2", "ack3", "data", "data", "tick", "tick", "close", "reconnect"]
+KINDS = ["send"] * 4 + ["ack"] * 4 + ["ack0", "ack1", "ack2", "ack3", "data", "data", "tick", "tick", "close", "reconnect", "rflag"]
 
 
 def all_histories(depth, alphabet):
@@ -227,6 +237,8 @@ def reuse_scenarios(ctx):
             for k in range(r.randrange(5, 12)):
                 cmd = r.choice(cmds)
                 if r.random() < 0.15:
+                    if r.random() < 0.5:
+                        w.p.reset_flag = True; hist.append("reset flag raised")
                     w.close(); w.reconnect(); expect = 0; hist.append("close+reconnect")
                 m = w.mark()
                 w.start_send(k, cmd.to_frame())
